@@ -30,7 +30,7 @@ def row_value(spec, made=None):
     """made: list of (object, cells) created earlier in this history; {"ref": k} re-uses the k-th of them (the very same
     Python object), because callers do keep block rows around and assign them again"""
     if "ref" in spec and made:
-        return made[spec["ref"] % len(made)]
+        return made[-1 - (spec["ref"] % min(len(made), 4))]  # one of the most recently created objects
     if "ref" in spec:
         spec = {"str": ""}
     if "str" in spec:
@@ -271,7 +271,7 @@ FMT = st.sampled_from([{}, {}, {"fg": 31}, {"bg": 44}, {"bold": True, "fg": 32}]
 
 @st.composite
 def rowspec(draw, length):
-    if draw(st.integers(0, 6)) == 0:
+    if draw(st.integers(0, 3)) == 0:
         return {"ref": draw(st.integers(0, 30))}
     # one character per cell - also for double-width / combining / tab characters (cells are characters, not columns)
     text = draw(st.text(alphabet="abcxyz ." + ("Ｅ́\t" if draw(st.integers(0, 4)) == 0 else ""), min_size=length, max_size=length))
